@@ -142,8 +142,9 @@ CLAIMS = {
     "C12": dict(
         technique="Lean 4 theorems on index-function models of the finite-difference stencils, flow_derivatives dictionary "
                   "loop, jacobian_det/divergence/curl/lie_bracket + correspondence over all modes/keys/spacing forms",
-        text="24 theorems: every finite-difference mode is exact on affine fields (interior for the one-sided padded "
-             "schemes, everywhere for forward_central_backward, margin 1 for sobel/prewitt), any dilation and spacing form; "
+        text="25 theorems: every finite-difference mode is exact on affine fields (interior for the one-sided padded "
+             "schemes, everywhere for forward_central_backward and - after the repair ebd9a4d of the averaging - for sobel/prewitt), "
+             "second derivatives of affine fields vanish at every point for these three, any dilation and spacing form; "
              "second derivatives exact on quadratics in the interior; mixed derivatives symmetric; subset requests return "
              "the same values; jacobian_det = Matrix.det (D=2,3, with/without identity); divergence = trace; curl; Lie "
              "bracket of affine fields = (AB-BA)x+(Ab-Ba). B-spline mode is tied by correspondence (its theorem is C14's).",
